@@ -6,6 +6,7 @@ import (
 	"math/rand"
 	"sort"
 	"strings"
+	"unicode/utf16"
 )
 
 // ---- logical document ------------------------------------------------------
@@ -155,6 +156,13 @@ type Layout struct {
 	// sorts before the real names), for a font no page ever selects and whose
 	// object the file does not have (a dangling reference reads as null).
 	GhostFont bool
+	// GhostResCategory: the Resources dictionaries carry one more category
+	// (/ExtGState or /ColorSpace) that no content uses and whose value is a
+	// reference to an object the file does not have (reads as null)
+	GhostResCategory bool
+	// InfoUTF16: the information dictionary carries /Title and /Author as
+	// UTF-16BE strings with a byte order mark
+	InfoUTF16 bool
 	// Omit: entity keys (e.g. "font:3", "font:3:tounicode") that get an object
 	// number but are not written: references to them dangle (C02 / C03 only)
 	Omit []string
@@ -754,6 +762,9 @@ func (b *builder) materialize(d *Doc) (map[string]any, []string) {
 				if len(xo) > 0 {
 					rd = append(rd, KV{"XObject", xo})
 				}
+				if b.lay.GhostResCategory {
+					rd = append(Dict{{"ExtGState", Ref{"res:ghost"}}}, rd...)
+				}
 				objs[rk] = rd
 				res = Ref{rk}
 			} else {
@@ -761,7 +772,14 @@ func (b *builder) materialize(d *Doc) (map[string]any, []string) {
 				if len(xo) > 0 {
 					rd = append(rd, KV{"XObject", xo})
 				}
+				if b.lay.GhostResCategory {
+					rd = append(rd, KV{"ColorSpace", Ref{"res:ghost"}})
+				}
 				res = rd
+			}
+			if b.lay.GhostResCategory {
+				objs["res:ghost"] = Dict{{"GS0", Dict{{"Type", Name("ExtGState")}}}}
+				b.feat["res.category-dangling-unused"] = true
 			}
 			dict = append(dict, KV{"Resources", res})
 		}
@@ -838,7 +856,20 @@ func (b *builder) materialize(d *Doc) (map[string]any, []string) {
 	}
 	walk(d.Root, nil)
 	objs["catalog"] = Dict{{"Type", Name("Catalog")}, {"Pages", Ref{fmt.Sprintf("node:%d", d.Root.ID)}}}
-	objs["info"] = Dict{{"Producer", Str{B: []byte("verif pdfw")}}}
+	info := Dict{{"Producer", Str{B: []byte("verif pdfw")}}}
+	if b.lay.InfoUTF16 {
+		// text strings of the information dictionary in UTF-16BE with a byte order
+		// mark (ISO 32000-1 7.9.2.2), the encoding of every non-Latin title
+		u16 := func(s string) Str {
+			out := []byte{0xFE, 0xFF}
+			for _, u := range utf16.Encode([]rune(s)) {
+				out = append(out, byte(u>>8), byte(u))
+			}
+			return Str{B: out, Hex: b.seed%2 == 0}
+		}
+		info = append(info, KV{"Title", u16(fmt.Sprintf("Έκθεση %d — отчёт 報告", b.seed%100000))}, KV{"Author", u16("Ωμέγα Автор")})
+	}
+	objs["info"] = info
 	return objs, contentKeys
 }
 
@@ -895,6 +926,9 @@ func canonInto(b *strings.Builder, v any) {
 func Build(seed int64, lay Layout, docs []*Doc) *Built {
 	if lay.GhostFont {
 		lay.Omit = append(append([]string{}, lay.Omit...), "font:ghost")
+	}
+	if lay.GhostResCategory {
+		lay.Omit = append(append([]string{}, lay.Omit...), "res:ghost")
 	}
 	b := &builder{lay: lay, seed: seed, r: rand.New(rand.NewSource(seed)), nums: map[string]int{}, gens: map[string]int{}, used: map[int]bool{}, written: map[string]string{}, feat: map[string]bool{}}
 	f := NewFile([]string{"1.4", "1.5", "1.7"}[b.r.Intn(3)], lay.EOL, lay.Tight, rand.New(rand.NewSource(seed^0x5bd1e995)))
